@@ -9,6 +9,7 @@ import (
 	"io"
 	"net/http"
 	"net/http/httptest"
+	"strings"
 	"testing"
 )
 
@@ -35,9 +36,25 @@ func (w *verifRW) Write(p []byte) (int, error) {
 	return len(p), nil
 }
 
+// verifChunk: small chunks, except in the 4-chunk documents, whose chunks are 300 KiB each (documents beyond any
+// plausible internal buffer limit)
+func verifChunk(chunks, i int) string {
+	if chunks == 4 {
+		return fmt.Sprintf("<p>big%d</p>", i) + strings.Repeat("x", 300<<10)
+	}
+	return fmt.Sprintf("<p>chunk%d</p>", i)
+}
+
+func verifShort(s string) string {
+	if len(s) > 120 {
+		return fmt.Sprintf("%s... (%d bytes)", s[:120], len(s))
+	}
+	return s
+}
+
 func TestVerifReplayC11(t *testing.T) {
-	for chunks := 0; chunks <= 3; chunks++ {
-		for _, failAfter := range []int{-1, 0, 1, 2, 3} {
+	for chunks := 0; chunks <= 4; chunks++ {
+		for _, failAfter := range []int{-1, 0, 1, 2, 3, 4} {
 			for _, status := range []int{0, 201, 404} {
 				for _, withEH := range []bool{false, true} {
 					for _, ehWritesHeader := range []bool{false, true} {
@@ -45,7 +62,7 @@ func TestVerifReplayC11(t *testing.T) {
 					for _, ctype := range []string{"text/x-verif", "text/event-stream", "application/x-ndjson"} {
 						doc := ""
 						for i := 0; i < chunks; i++ {
-							doc += fmt.Sprintf("<p>chunk%d</p>", i)
+							doc += verifChunk(chunks, i)
 						}
 						fails := failAfter >= 0 && failAfter <= chunks
 						comp := ComponentFunc(func(ctx context.Context, w io.Writer) error {
@@ -53,7 +70,7 @@ func TestVerifReplayC11(t *testing.T) {
 								if fails && i == failAfter {
 									return boom
 								}
-								if _, err := io.WriteString(w, fmt.Sprintf("<p>chunk%d</p>", i)); err != nil {
+								if _, err := io.WriteString(w, verifChunk(chunks, i)); err != nil {
 									return err
 								}
 							}
@@ -91,7 +108,7 @@ func TestVerifReplayC11(t *testing.T) {
 								got = 200 // nothing written: net/http answers 200 when the handler returns
 							}
 							if body != doc || got != want || w.hdr.Get("Content-Type") != ctype {
-								fmt.Printf("REPLAY-CONFIRMED %s: successful render answered status %d content-type %q body %q, want %d %q\n", cfg, w.status, w.hdr.Get("Content-Type"), body, want, doc)
+								fmt.Printf("REPLAY-CONFIRMED %s: successful render answered status %d content-type %q body %q, want %d %q\n", cfg, w.status, w.hdr.Get("Content-Type"), verifShort(body), want, verifShort(doc))
 								return
 							}
 							continue
@@ -105,7 +122,7 @@ func TestVerifReplayC11(t *testing.T) {
 							}
 						}
 						if body != wantBody || w.status != wantStatus {
-							fmt.Printf("REPLAY-CONFIRMED %s: failed render answered status %d body %q (events %v), want %d %q\n", cfg, w.status, body, w.events, wantStatus, wantBody)
+							fmt.Printf("REPLAY-CONFIRMED %s: failed render answered status %d body %q (%d events), want %d %q\n", cfg, w.status, verifShort(body), len(w.events), wantStatus, wantBody)
 							return
 						}
 					}
@@ -125,7 +142,7 @@ func TestVerifReplayC11(t *testing.T) {
 		b.WriteString("stale")
 		ReleaseBuffer(b)
 	}
-	fmt.Println("REPLAY-NOT-REPRODUCED bounded search over chunk counts 0..3 x fault points x 3 kinds of error (plain, wrapping context.Canceled, templ.Error with a deadline) x status {0,201,404} x error handler configurations x 3 content types (incl. text/event-stream)")
+	fmt.Println("REPLAY-NOT-REPRODUCED bounded search over chunk counts 0..4 (the 4-chunk documents are 1.2 MiB) x fault points x 3 kinds of error (plain, wrapping context.Canceled, templ.Error with a deadline) x status {0,201,404} x error handler configurations x 3 content types (incl. text/event-stream)")
 }
 `
 
